@@ -173,6 +173,73 @@ class SimFS:
             self.delivered_raw = True
         return data
 
+    def _fileio_class(self):
+        """io.FileIO over a descriptor this seam handed out: reads are steps like any other."""
+        fs = self
+        base = self._orig['io.FileIO']
+
+        class SimFileIO(base):
+            def _ent(self_f):
+                try:
+                    return fs._fds.get(base.fileno(self_f))
+                except (ValueError, OSError):
+                    return None
+
+            def _deliver(self_f, ent, data):
+                if ent['left'] is not None:
+                    data = data[:ent['left']]
+                    ent['left'] -= len(data)
+                prev = fs.delivered
+                fs.delivered = bytes(data) if not isinstance(prev, bytes) else prev + bytes(data)
+                fs.delivered_raw = True
+                return data
+
+            def _pre(self_f, ent):
+                f = fs._step('read', ent['path'])
+                if f and f['kind'] == 'errno':
+                    raise _oserror(f['errno'])
+                if f and f['kind'] == 'truncate' and ent['left'] is None:
+                    ent['left'] = f['n']
+
+            def readinto(self_f, b):
+                ent = self_f._ent()
+                if ent is None:
+                    return base.readinto(self_f, b)
+                self_f._pre(ent)
+                n = base.readinto(self_f, b)
+                if n:
+                    data = self_f._deliver(ent, bytes(memoryview(b)[:n]))
+                    n = len(data)
+                elif fs.delivered is None:
+                    fs.delivered = b''
+                    fs.delivered_raw = True
+                return n
+
+            def read(self_f, size=-1):
+                ent = self_f._ent()
+                if ent is None:
+                    return base.read(self_f, size)
+                self_f._pre(ent)
+                data = base.read(self_f, size)
+                return self_f._deliver(ent, data) if data else (data if fs.delivered is not None else self_f._deliver(ent, b''))
+
+            def readall(self_f):
+                return self_f.read(-1)
+
+            def close(self_f):
+                ent = None if self_f.closed else self_f._ent()
+                fd = None
+                if ent is not None:
+                    fd = base.fileno(self_f)
+                base.close(self_f)
+                if ent is not None:
+                    fs._fds.pop(fd, None)
+                    f = fs._step('close', ent['path'])
+                    if f and f['kind'] == 'errno':
+                        raise _oserror(f['errno'])
+
+        return SimFileIO
+
     def _os_close(self, fd):
         ent = self._fds.pop(fd, None)
         if ent is None:
@@ -185,8 +252,10 @@ class SimFS:
     def __enter__(self):
         import builtins
         self._orig = {'os.lstat': os.lstat, 'os.stat': os.stat, 'os.readlink': os.readlink, 'io.open': io.open,
-                      'builtins.open': builtins.open, 'os.open': os.open, 'os.read': os.read, 'os.close': os.close}
+                      'builtins.open': builtins.open, 'os.open': os.open, 'os.read': os.read, 'os.close': os.close,
+                      'io.FileIO': io.FileIO}
         self._fds = {}
+        io.FileIO = self._fileio_class()
         os.lstat = self._lstat
         os.stat = self._stat
         os.readlink = self._readlink
@@ -207,6 +276,7 @@ class SimFS:
         os.open = self._orig['os.open']
         os.read = self._orig['os.read']
         os.close = self._orig['os.close']
+        io.FileIO = self._orig['io.FileIO']
         return False
 
 
